@@ -268,6 +268,19 @@ Definition supported (gens : nat) (v : attr) (s : stmt) : bool :=
       Nat.leb (padded_len (length set)) gens && match set with [] => false | _ => true end
   end.
 
+Definition wf_stmt (s : stmt) : bool :=
+  match s with
+  | SReveal _ => true
+  | SRange _ lo hi => wf_attr lo && wf_attr hi
+  | SInSet _ set | SNotInSet _ set => forallb wf_attr set
+  | SValue _ w => wf_attr w
+  end.
+
+Definition supported_al (gens : nat) (al : alist) (s : stmt) : bool :=
+  match lookup (stmt_tag s) al with None => true | Some v => supported gens v s end.
+
+Definition wf_alist (al : alist) : bool := forallb (fun p => wf_attr (snd p)) al.
+
 (** * Transcripts: labelled byte strings and the two framings *)
 
 Local Open Scope N_scope.
